@@ -27,7 +27,172 @@ NOT_DECIDED = "the full viability/ranking table over signature sets (IsCompatibl
 ASSUMPTIONS = ["scores: 0 exact, positive = number of conversions, negative = not viable (documented in Function.Match)"]
 
 
+class _AT:
+    """abstract type: kind + symbolic shape"""
+
+    def __init__(self, name, cls, size=None, comp=None, ident=None):
+        self.name, self.cls, self.size, self.comp, self.ident = name, cls, size, comp, ident or name
+
+    def __repr__(self):
+        return self.name
+
+
+def check_compat_table(model, col, R):
+    """Decision table of types.IsCompatible over an abstract domain (scalar, vectors of two sizes, matrices of two shapes,
+    arrays of two sizes / two element kinds, two struct types): the function's paths are enumerated with every condition
+    folded over the abstract operands and the returned expression evaluated abstractly. Expected: scalars always; vectors,
+    matrices, arrays iff same shape (arrays: and compatible elements); structs iff the same type; every other pair never."""
+    from ..attrs import Predicates
+
+    ic = model.func(TYPES, "IsCompatible")
+    ln, rn = ic.args.args[0].arg, ic.args.args[1].arg
+    P = Predicates(model, TYPES, "Type")
+    C = {n: model.cls(TYPES, n) for n in ("Float", "VectorType", "MatrixType", "ArrayType", "StructType")}
+    S = _AT("scalar", C["Float"])
+    V2, V3 = _AT("vector2", C["VectorType"], (2,), S), _AT("vector3", C["VectorType"], (3,), S)
+    M22, M23 = _AT("matrix2x2", C["MatrixType"], (2, 2), S), _AT("matrix2x3", C["MatrixType"], (2, 3), S)
+    A2, A3, A2v = _AT("scalar[2]", C["ArrayType"], (2,), S), _AT("scalar[3]", C["ArrayType"], (3,), S), _AT("vector2[2]", C["ArrayType"], (2,), V2)
+    T1, T2 = _AT("struct A", C["StructType"]), _AT("struct B", C["StructType"])
+    dom = [S, V2, V3, M22, M23, A2, A3, A2v, T1, T2]
+    KIND = {"Float": "Scalar", "VectorType": "Vector", "MatrixType": "Matrix"}
+
+    class Unknown(Exception):
+        pass
+
+    class Crash(Exception):
+        pass
+
+    def pred(t, name):
+        r = P.const_result(t.cls, name)
+        if isinstance(r, bool):
+            return r
+        if name in ("IsScalar", "IsVector", "IsMatrix") and t.cls.name in KIND:
+            return KIND[t.cls.name] == name[2:]
+        if t.cls.find_method(name) is None:
+            raise Unknown(f"{t.cls.name} has no {name}()")
+        raise Unknown(f"{t.cls.name}.{name}() is not constant")
+
+    def expected(a, b):
+        if a.cls is not b.cls:
+            return False
+        if a.cls.name == "Float":
+            return True
+        if a.cls.name in ("VectorType", "MatrixType"):
+            return a.size == b.size
+        if a.cls.name == "ArrayType":
+            return a.size == b.size and expected(a.comp, b.comp)
+        return a.ident == b.ident
+
+    def run(a, b, depth=0):
+        env = {ln: a, rn: b}
+
+        def aev(e):
+            if isinstance(e, ast.Constant):
+                return e.value
+            if isinstance(e, ast.Name):
+                if e.id in env:
+                    return env[e.id]
+                raise Unknown(f"name {e.id}")
+            if isinstance(e, ast.Tuple):
+                return tuple(aev(x) for x in e.elts)
+            if isinstance(e, ast.UnaryOp) and isinstance(e.op, ast.Not):
+                return not aev(e.operand)
+            if isinstance(e, ast.BoolOp):
+                # short-circuit, like the interpreter: `x.IsVector() and x.GetSize() == ..` never asks a scalar for its size
+                for v in e.values:
+                    r_ = bool(aev(v))
+                    if isinstance(e.op, ast.And) and not r_:
+                        return False
+                    if isinstance(e.op, ast.Or) and r_:
+                        return True
+                return isinstance(e.op, ast.And)
+            if isinstance(e, ast.Compare) and len(e.ops) == 1 and isinstance(e.ops[0], (ast.Eq, ast.NotEq)):
+                l_, r_ = aev(e.left), aev(e.comparators[0])
+                eq = (l_.ident == r_.ident and l_.size == r_.size and l_.cls is r_.cls) if isinstance(l_, _AT) and isinstance(r_, _AT) else l_ == r_
+                return eq if isinstance(e.ops[0], ast.Eq) else not eq
+            if isinstance(e, ast.Call):
+                f = e.func
+                if isinstance(f, ast.Name) and f.id == "isinstance" and len(e.args) == 2:
+                    t_ = aev(e.args[0])
+                    cn = last_attr(ast.Call(func=e.args[1], args=[], keywords=[])) if not isinstance(e.args[1], ast.Name) else e.args[1].id
+                    ci = model.cls(TYPES, cn) if (TYPES, cn) in {(c.file, c.name) for c in model.classes.values()} else None
+                    return ci is not None and ci in t_.cls.mro
+                if isinstance(f, ast.Name) and f.id == "IsCompatible" and len(e.args) == 2:
+                    if depth > 3:
+                        raise Unknown("recursion")
+                    return run(aev(e.args[0]), aev(e.args[1]), depth + 1)
+                if isinstance(f, ast.Attribute) and not e.args:
+                    t_ = aev(f.value)
+                    if not isinstance(t_, _AT):
+                        raise Unknown(unparse(e))
+                    if t_.cls.find_method(f.attr) is None:
+                        raise Crash(f"{t_.cls.name} has no {f.attr}()")
+                    if f.attr.startswith("Is"):
+                        return pred(t_, f.attr)
+                    if f.attr in ("GetSize",):
+                        if t_.size is None:
+                            raise Unknown(f"{t_}.GetSize()")
+                        return t_.size
+                    if f.attr == "GetComponentCount":
+                        return t_.size[0]
+                    if f.attr == "GetRowCount":
+                        return t_.size[0]
+                    if f.attr == "GetColumnCount":
+                        return t_.size[1]
+                    if f.attr in ("GetComponentType", "GetElementType"):
+                        if t_.comp is None:
+                            raise Unknown(f"{t_}.{f.attr}()")
+                        return t_.comp
+            raise Unknown(" ".join(unparse(e).split())[:60])
+
+        def fold(t):
+            try:
+                return bool(aev(t))
+            except Unknown:
+                return None
+
+        results = set()
+        try:
+            all_paths = list(paths(ic.body, fold=fold))
+        except Crash as e_:
+            return f"raises AttributeError ({e_})"
+        for evs, status in all_paths:
+            if status == "raise":
+                results.add("raises")
+            elif status == "fall":
+                results.add(None)
+            elif status == "return":
+                # re-bindings of the operands on the path (single-component vectors) are not modelled: the domain has none
+                rv = evs[-1].node.value
+                try:
+                    results.add(bool(aev(rv)) if rv is not None else None)
+                except Crash as e_:
+                    results.add(f"raises AttributeError ({e_})")
+        if len(results) != 1:
+            raise Unknown(f"{len(results)} outcomes {results}")
+        return next(iter(results))
+
+    wrong, undecided, n = [], [], 0
+    for a in dom:
+        for b in dom:
+            n += 1
+            try:
+                got = run(a, b)
+            except Unknown as e:
+                undecided.append(f"({a}, {b}): {e}")
+                continue
+            want = expected(a, b)
+            if got is not want:
+                wrong.append(f"IsCompatible({a}, {b}) = {got}, expected {want}")
+    col.check(not wrong, R, f"{TYPES}::IsCompatible decision table", f"{n - len(undecided)} abstract operand pairs agree with: same kind and same shape (structs: same type)",
+              "; ".join(wrong[:4]) + (f" (+{len(wrong) - 4} more)" if len(wrong) > 4 else "") + ": an argument that cannot be converted to the parameter makes the candidate viable (or a convertible one is refused)", TYPES, ic)
+    if undecided:
+        col.info(f"IsCompatible decision table: {len(undecided)} of {n} pairs not decided abstractly, e.g. {undecided[0][:120]}")
+    col.floor(R, "abstract operand pairs of IsCompatible decided", n - len(undecided), 60)
+
+
 def check_compat_guards(model, col, R):
+    check_compat_table(model, col, R)
     """Structural guards of types.IsCompatible, as path conditions: arrays need equal size tuples and compatible
     component types, vectors equal sizes, matrices equal row and column counts, scalars are always compatible,
     primitive/aggregate and array/non-array never."""
